@@ -112,7 +112,7 @@ fn relevant_ids() -> Vec<u32> {
 }
 
 /// words: nsteps, then per step: selector, args[NW]; preceded by h1[NH] h2[NH]
-fn program_check(w: &[u64], t: &mut Tally) -> Result<(), Fail> {
+pub fn program_check(w: &[u64], t: &mut Tally) -> Result<(), Fail> {
     let h1: Vec<u32> = w[0..NH].iter().map(|x| *x as u32).collect();
     let h2: Vec<u32> = w[NH..2 * NH].iter().map(|x| *x as u32).collect();
     let nsteps = (w[2 * NH] as usize).min(MAXSTEPS);
